@@ -399,7 +399,7 @@ def run(ctx):
     cov.update({
         "evaluations": len(hs) + len(shs),
         "distinct_nontrivial": len(seen),
-        "rule": "catalog histories of 3-30 commands (plus a 1-2 command preamble) from five mixes over a universe of 3 nodes, 2 node IDs, 3 service ids, names web/db/api (+consul, gateways), kinds typical / connect-proxy / connect-native / mesh / terminating / ingress gateway, terminating and ingress gateway entries with wildcards, service-defaults (with destination for 'ext'), resolvers, manual virtual IPs, coordinates, catalog transactions; distinct_nontrivial = distinct command lists; every history is executed on a real fsm.FSM, compared with the Coq model (final dump + every result) and checked by the oracle after every command",
+        "rule": "catalog histories of 3-30 commands (plus a 1-2 command preamble) from five mixes over a universe of 3 nodes, 2 node IDs, 3 service ids, names web/db/api (+consul, gateways), kinds typical / connect-proxy / connect-native / mesh / terminating / ingress gateway, terminating and ingress gateway entries with wildcards, service-defaults (with destination for 'ext'), resolvers, manual virtual IPs, coordinates, catalog transactions; distinct_nontrivial = distinct command lists; every history is executed on a real fsm.FSM, compared with the Coq model (final dump + every result) and checked by the oracle after every command; plus three oracle-only streams of a quarter of that size each (no model comparison): case = the same over names with upper-case letters, peer = two registrations/deregistrations in five carry a peer name (imported rows), wide = virtual-IP flag toggled mid-history, destinations that also have instances, manual addresses inside 240.0.0.0/4, requests carrying their own consul-virtual address",
         "traces_validated_against_impl": len(model_hs) - len(mism) + len(shs) - len(store_mism),
         "commands_executed": steps, "oracle_evaluations": steps,
         "model_mismatches": len(mism), "store_model_histories": len(shs), "store_model_mismatches": len(store_mism),
@@ -410,7 +410,7 @@ def run(ctx):
         "history_classes": dict(flags),
         "history_length_histogram": {str(k): v for k, v in sorted(lens.items())},
         "samples": [{"mix": h["mix"], "cmds": h["cmds"][:4], "results": h["results"][:4]} for h in hs[6:8]],
-        "stage": "A proved (virtual IP uniqueness, advertised virtual IPs and usage counts in full; kind-service-names refuted + proved under the naming discipline); B (gateway-services, mesh-topology) modelled, compared with the implementation on every run, refuted by witnesses; for mesh-topology the reference-keeping of updateMeshTopology is proved",
+        "stage": "A proved (virtual IP uniqueness, advertised virtual IPs and usage counts in full; kind-service-names refuted + proved under the naming discipline); B (gateway-services, mesh-topology) modelled, compared with the implementation on every run, refuted by witnesses, no positive theorem (one lemma about updateMeshTopology alone is proved); peer-imported rows: oracle-only testing",
         "exhaustive": False,
     })
     return ctx.finish(cov, assumptions)
